@@ -331,7 +331,7 @@ func (p prop) Drive(d *core.Driver) error {
 		"the column is not judged when the bytes between the line start and Start are not valid UTF-8; the line and the ranges always are",
 		"builds that panic or kill the process are not judged here (C04)",
 	}
-	total := d.N(30000, 1500000)
+	total := d.N(30000, 1000000)
 	round := 60000
 	r := d.Rand("mix")
 	truncs := g.TruncInputs(d.Rand("trunc"), d.N(60, 150), d.N(25, 0))
